@@ -1,7 +1,8 @@
 (** C09 — graph transforms compute exactly the specified arc set.
     Statements and [Print Assumptions] only. *)
 From WG Require Import Base.Prelude Par.Splice Transform.Pipelines Transform.Statements
-  Transform.Facts Transform.Facts2.
+  Transform.Facts Transform.Facts2 Transform.Facts3 Transform.SortedParFacts Transform.Facts4
+  Transform.ReadParFacts.
 Local Open Scope N_scope.
 
 (** the specification lists are the successor lists of a relation: membership ... *)
@@ -50,3 +51,51 @@ Print Assumptions C09_permute.
 Theorem C09_map : S_map.
 Proof. exact map_correct. Qed.
 Print Assumptions C09_map.
+
+(** symmetrize_sorted_par: only the reversed arcs are sorted; the forward graph is re-split
+    at the sorter's boundaries and merged (MergeDedupPairs) partition by partition *)
+Theorem C09_sorted_par_symm : S_sorted_par_symm.
+Proof. exact sorted_par_symm. Qed.
+Print Assumptions C09_sorted_par_symm.
+
+(** ... also when the result is consumed through into_par_lenders (the only way the Rust
+    type allows) *)
+Theorem C09_sorted_par_symm_lenders : S_sorted_par_symm_lenders.
+Proof. exact sorted_par_symm_lenders. Qed.
+Print Assumptions C09_sorted_par_symm_lenders.
+
+(** sequential and parallel variants agree for all partition counts, cuts, arrival orders *)
+Theorem C09_seq_eq_par : S_seq_eq_par.
+Proof. exact seq_eq_par. Qed.
+Print Assumptions C09_seq_eq_par.
+
+(** the transpose of a well-formed graph is well formed and transposing twice is the identity *)
+Theorem C09_transpose_involutive : S_transpose_involutive.
+Proof. exact transpose_involutive. Qed.
+Print Assumptions C09_transpose_involutive.
+
+(** ... also through the pipelines *)
+Theorem C09_transpose_twice : S_transpose_twice.
+Proof. exact transpose_twice. Qed.
+Print Assumptions C09_transpose_twice.
+
+(** the sorters used to run the extracted model satisfy the contract (so the hypotheses of
+    the theorems above are satisfiable) *)
+Theorem C09_ksort_ok : S_ksort_ok.
+Proof. exact ksort_ok. Qed.
+Print Assumptions C09_ksort_ok.
+
+(** non-vacuity: a graph with a loop, an isolated node and an empty middle segment of the
+    cut sequence; the schedule is legal and the pipelines compute what the theorems say *)
+Example C09_nonvacuous :
+  let g := [[1;2];[2];[0;2;3];[]] in
+  wf_graph g = true /\ legal_schedule [0;1;1;4] [2;0;1]%nat (nlen g)
+  /\ transpose_par ksort 3 [0;1;1;4] [2;0;1]%nat g = Some [[2];[0];[0;1;2];[2]]
+  /\ symmetrize_sorted_par_lenders ksort true 3 [0;1;1;4] [2;0;1]%nat g = Some [[1;2];[0;2];[0;1;3];[2]]
+  /\ map_seq ksortd [1;1;0;0] 2 5 g = Some [[0;1];[0;1]].
+Proof.
+  cbv zeta. split; [vm_compute; reflexivity|]. split.
+  - split; [vm_compute; reflexivity|]. cbn [length Nat.sub seq].
+    apply (perm_trans (l' := [0;2;1]%nat)); [apply perm_swap|]. apply perm_skip. apply perm_swap.
+  - repeat split; vm_compute; reflexivity.
+Qed.
